@@ -170,10 +170,8 @@ def run_case(tier, seed, index, spec=None):
             out = C.call(fggs.FiniteFactor, D, w)
             if out['ok']:
                 V(f'factor-accepts-wrong-shape:{rep}', f'FiniteFactor accepted shape {s2} for domains of sizes {shape} ({rep})', domains=descr)
-            elif out['exc_type'] != 'ValueError':
-                V(f'factor-wrong-shape-other-exception:{out["exc_type"]}', f'shape {s2} for {shape}: {out["exc"]}')
             else:
-                obs['shape_reject'] += 1
+                obs['shape_reject'] += 1          # the statement asks for rejection, not for a particular exception type
     # the weights setter validates too
     if 'tensor' in reps and shape:
         f = reps['tensor']
@@ -265,8 +263,7 @@ def run_case(tier, seed, index, spec=None):
                 return out
             if out['ok']:
                 V(f'{sig}:accepted', f'{what} was accepted ({container})', domains=descr)
-            elif out['exc_type'] not in expect_exc:
-                V(f'{sig}:{out["exc_type"]}', f'{what} raised {out["exc"]} instead of {expect_exc} ({container})')
+            # (any exception is a rejection; the statement does not name exception types for bindings)
             if (dict(X.factors), dict(X.domains)) != before and not out['ok']:
                 V(f'{sig}:state-changed', f'failed {what} changed the interpretation ({container})')
             return out
